@@ -416,7 +416,36 @@ class Replayer:
 
     def open(self):
         from sedpack.io import Dataset
-        self.ds = Dataset(self.root)
+        if getattr(self, "open_relative", False):
+            cwd = os.getcwd()
+            try:
+                os.chdir(self.root.parent)
+                self.ds = Dataset(Path(self.root.name))
+            finally:
+                os.chdir(cwd)
+        else:
+            self.ds = Dataset(self.root)
+
+    RELOC_TARGETS = ["moved dir/ünï/d 9", "copies/深い/数据 集", "a/../plain", "x y/z"]
+
+    def relocate(self):
+        """Move (odd moves) or copy (even moves) the dataset directory elsewhere; the next Open uses the new place,
+        alternately through an absolute and a cwd-relative path."""
+        import shutil as _sh
+        self.nmoves = getattr(self, "nmoves", 0) + 1
+        base = self.root.parent
+        target = (self.base0 if hasattr(self, "base0") else base)
+        if not hasattr(self, "base0"):
+            self.base0 = base
+        new = Path(os.path.normpath(self.base0 / f"m{self.nmoves}" / self.RELOC_TARGETS[(self.nmoves - 1) % 4]))
+        new.parent.mkdir(parents=True, exist_ok=True)
+        if self.nmoves % 2:
+            _sh.move(str(self.root), str(new))
+        else:
+            _sh.copytree(str(self.root), str(new))
+        self.root = new
+        self.ds = None
+        self.open_relative = (self.nmoves % 2 == 0)
 
     def begin_filler(self, d):
         from sedpack.io.dataset_filler import DatasetFiller
@@ -502,6 +531,9 @@ class Replayer:
         if name == "Open":
             self.open()
             return True
+        if name == "Relocate":
+            self.relocate()
+            return False
         if name == "BeginFiller":
             self.begin_filler(args[0])
             return False
